@@ -88,7 +88,7 @@ def real_oracle(ctx, rep):
     for t in range(ctx.n(400, 6000)):
         D = rng.choice([1, 2, 5])
         ops = rng.sample(G.ALL_OPS, rng.randrange(2, 7))
-        size = rng.choice([3, 5, 8, 12, 20, 40])
+        size = rng.choice([1, 2, 3, 3, 5, 8, 12, 20, 40])     # the generator accepts every size >= 1
         tp = rng.choice([0.1, 0.3, 0.5])
         cp = rng.choice([None, 0.3, 0.6])
         nload = rng.choice([1, 2])
@@ -123,6 +123,8 @@ def real_oracle(ctx, rep):
                             check_child(rep, case, "mutation " + str(mut.last_mutation_type), child, [a], [before], D, ops, size, a.genetic_age)
                             a = child if rng.random() < 0.7 else a
                             a.fitness = 1.5
+                    if size < 3:
+                        continue            # AGraphCrossover raises ValueError for sizes <= 2 (finding F7)
                     cx = AGraphCrossover()
                     ba, bb = snapshot(a), snapshot(b)
                     c1, c2 = cx(a, b)
